@@ -49,6 +49,8 @@ Definition cut_name (nm : list Z) : list Z := firstn (Z.to_nat FIELDNAMELENMAX) 
     [None] = FAIL.  (Redefinition of a name is outside the model: the C code compares against the wrong
     table there.) *)
 Definition m_fdefine (usym : list symdef) (name : list Z) (localtype order : Z) : option (list symdef) :=
+  (* scanattrs must find exactly one token: no comma, not empty *)
+  if existsb (Z.eqb 44) name || match name with [] => true | _ => false end then None else
   if (order <? 1) || (MAX_ORDER <? order) then None else
   match dfkntsize localtype with
   | None => None
